@@ -612,7 +612,8 @@ def rule_info_syntax(ctx):
     ix = ctx.ix
     b = ctx.body("search::Search::log_uci_info")
     c = cases.run(ix, b, {})
-    ctx.check(not c.overflow and c.paths, "log_uci_info:paths-enumerated", "%d path(s) through log_uci_info" % len(c.paths), b.where(0), bad_what="log_uci_info has too many paths to enumerate (cannot decide)")
+    ctx.check(not c.overflow and c.paths and not any(p.end == "cut" for p in c.paths), "log_uci_info:paths-enumerated", "%d path(s) through log_uci_info" % len(c.paths), b.where(0),
+              bad_what="log_uci_info has a loop or too many paths to enumerate (cannot decide)")
     seen = {}
     n_lines = 0
     for p in c.paths:
